@@ -115,6 +115,32 @@ VIEWS = {
 LAYOUT = Layout(CLS, FIELDS, aliases={"Key": "Pair[Int,Tup]"}, views=VIEWS, multi={"wf": wf, "view_eq": view_eq})
 
 
+# weight handed to the record k by the first j positions of a batch (edge_list, time_list, weights): fold-defined
+BSUM = z3.Function("bsum_t", z3.ArraySort(T.I, T.TupS), z3.ArraySort(T.I, T.I), T.B, z3.ArraySort(T.I, T.R), T.I, TK.sort(), T.R)
+_be, _bt, _bh, _bw = z3.Const("_bet", z3.ArraySort(T.I, T.TupS)), z3.Const("_btt", z3.ArraySort(T.I, T.I)), z3.Bool("_bht"), z3.Const("_bwt", z3.ArraySort(T.I, T.R))
+_bj, _bk = z3.Int("_bjt"), z3.Const("_bkt", TK.sort())
+TH.EXTRA.update({
+    "bsum_t_0 (definition)": z3.ForAll([_be, _bt, _bh, _bw, _bk], BSUM(_be, _bt, _bh, _bw, 0, _bk) == 0, patterns=[BSUM(_be, _bt, _bh, _bw, 0, _bk)]),
+    "bsum_t_step (definition)": z3.ForAll([_be, _bt, _bh, _bw, _bj, _bk], z3.Implies(_bj >= 0,
+        BSUM(_be, _bt, _bh, _bw, _bj + 1, _bk) == BSUM(_be, _bt, _bh, _bw, _bj, _bk) +
+        z3.If(TK.mk(_bt[_bj], TH.canon(_be[_bj])) == _bk, z3.If(_bh, _bw[_bj], z3.RealVal(1)), z3.RealVal(0))),
+        patterns=[BSUM(_be, _bt, _bh, _bw, _bj + 1, _bk)]),
+})
+
+
+def _bsum(eng, p, h, el, tl, ws, j, k):
+    if ws.ty == T.NONE:
+        hw, aw = z3.BoolVal(False), z3.K(T.I, z3.RealVal(0))
+    elif isinstance(ws.ty, T.Opt):
+        hw, aw = z3.Not(ws.is_none), ws.val.at
+    else:
+        hw, aw = z3.BoolVal(True), ws.at
+    return T.sv_real(BSUM(el.at, tl.at, hw, aw, eng.coerce(j, T.INT).t, k.t))
+
+
+VIEWS["bsum"] = _bsum
+
+
 def C(name, **kw):
     kw.setdefault("properties", ["C03"])
     return Contract(f"{CLS}.{name}", FILE, [CLS, name], self_cls=CLS, **kw)
@@ -334,6 +360,150 @@ CONTRACTS = [
                       "none": "(sz is None) == all(k not in _done0 for k in Key)",
                       "same": "implies(sz is not None, all(len(snd(k)) == sz for k in _done0))",
                       "witness": "implies(sz is not None, any(len(snd(k)) == sz for k in _done0))"}}),
+    # ------------------------------------------------------------------ construction, batched forms, further queries
+    C("__init__",
+      params={"edge_list": "None", "time_list": "None", "weighted": "Bool", "weights": "None", "hypergraph_metadata": "Opt[Meta]",
+              "node_metadata": "None", "edge_metadata": "None"},
+      fixed={"edge_list": None, "time_list": None, "weights": None, "node_metadata": None, "edge_metadata": None},
+      modifies=list(FIELDS),
+      ensures={"wf": "wf(self)", "V": "all(n not in V(self) for n in Node)", "E": "all(k not in E(self) for k in Key)",
+               "weighted": "weighted(self) == weighted"}),
+    C("add_nodes", params={"node_list": "Bag[Int]", "metadata": "Opt[Map[Int,Meta]]"},
+      requires={"wf": "wf(self)"},
+      may_raise={"ValueError": "metadata is not None and any(n not in metadata for n in node_list)"},
+      on_raise={"wf": "wf(self)", "E": "E(self) == E(old(self))"},
+      modifies=["_adj", "_node_metadata"],
+      ensures={"wf": "wf(self)",
+               "V": "all((n in V(self)) == (n in V(old(self)) or count(node_list, n) >= 1) for n in Node)",
+               "E": "E(self) == E(old(self))",
+               "NM_kept": "all(implies(metadata is None or NM(old(self), n) != EMPTY, NM(self, n) == NM(old(self), n)) for n in V(old(self)))",
+               "NM_new": "all(implies(n not in V(old(self)) and count(node_list, n) == 1, NM(self, n) == (EMPTY if metadata is None else metadata[n])) for n in node_list)"},
+      invariants={0: {
+          "wf": "wf(self)",
+          "V": "all((n in V(self)) == (n in V(old(self)) or count(_done0, n) >= 1) for n in Node)",
+          "NM_kept": "all(implies(metadata is None or NM(old(self), n) != EMPTY, NM(self, n) == NM(old(self), n)) for n in V(old(self)))",
+          "NM_new": "all(implies(n not in V(old(self)) and count(node_list, n) == 1, NM(self, n) == (EMPTY if metadata is None else metadata[n])) for n in _done0)",
+          "meta_ok": "implies(metadata is not None, all(n in metadata for n in _done0))"}}),
+    C("remove_nodes", params={"node_list": "Bag[Int]", "keep_edges": "Bool"}, fixed={"keep_edges": False},
+      requires={"wf": "wf(self)", "present": "all(n in V(self) and count(node_list, n) == 1 for n in node_list)"},
+      modifies=["_adj", "_node_metadata", "_edge_list", "_reverse_edge_list", "_weights", "_edge_metadata"],
+      ensures={"wf": "wf(self)",
+               "V": "all((n in V(self)) == (n in V(old(self)) and count(node_list, n) == 0) for n in Node)",
+               "E": "all((k in E(self)) == (k in E(old(self)) and all(count(node_list, n) == 0 for n in snd(k))) for k in Key)",
+               "W_kept": "all(W(self, k) == W(old(self), k) for k in E(self))",
+               "M_kept": "all(M(self, k) == M(old(self), k) for k in E(self))",
+               "NM_kept": "all(NM(self, n) == NM(old(self), n) for n in V(self))", **SAME_WEIGHTED},
+      invariants={0: {
+          "wf": "wf(self)",
+          "V": "all((n in V(self)) == (n in V(old(self)) and count(_done0, n) == 0) for n in Node)",
+          "E": "all((k in E(self)) == (k in E(old(self)) and all(count(_done0, n) == 0 for n in snd(k))) for k in Key)",
+          "W_kept": "all(W(self, k) == W(old(self), k) for k in E(self))",
+          "M_kept": "all(M(self, k) == M(old(self), k) for k in E(self))",
+          "NM_kept": "all(NM(self, n) == NM(old(self), n) for n in V(self))",
+          "weighted": "weighted(self) == weighted(old(self))", "HM": "HM(self) == HM(old(self))"}}),
+    C("clear", params={}, requires={"wf": "wf(self)"}, modifies=list(FIELDS),
+      ensures={"wf": "wf(self)", "V": "all(n not in V(self) for n in Node)", "E": "all(k not in E(self) for k in Key)",
+               "weighted": "weighted(self) == weighted(old(self))"}),
+    C("num_nodes", params={}, result="Int", pure=True, requires={"wf": "wf(self)"}, ensures={"result": "result == card(V(self))"}),
+    C("get_sizes", params={}, result="Bag[Int]", pure=True,
+      ensures={"len": "len(result) == card(E(self))",
+               "members": "all(implies(count(result, s) >= 1, any(len(snd(k)) == s for k in E(self))) for s in Int)",
+               "covers": "all(count(result, len(snd(k))) >= 1 for k in E(self))"}),
+    C("get_orders", params={}, result="Bag[Int]", pure=True,
+      ensures={"len": "len(result) == card(E(self))",
+               "members": "all(implies(count(result, s) >= 1, any(len(snd(k)) - 1 == s for k in E(self))) for s in Int)",
+               "covers": "all(count(result, len(snd(k)) - 1) >= 1 for k in E(self))"}),
+    C("max_size", params={}, result="Int", pure=True,
+      raises={"ValueError": "card(E(self)) == 0"},
+      ensures={"bound": "all(len(snd(k)) <= result for k in E(self))", "attained": "any(len(snd(k)) == result for k in E(self))"}),
+    C("max_order", params={}, result="Int", pure=True,
+      raises={"ValueError": "card(E(self)) == 0"},
+      ensures={"bound": "all(len(snd(k)) - 1 <= result for k in E(self))", "attained": "any(len(snd(k)) - 1 == result for k in E(self))"}),
+    Contract(f"{CLS}.get_weights@list", FILE, [CLS, "get_weights"], self_cls=CLS, properties=["C03"],
+      params={"order": "Opt[Int]", "size": "Opt[Int]", "up_to": "Bool", "asdict": "Bool"}, fixed={"asdict": False},
+      result="Bag[Real]", pure=True,
+      requires={"wf": "wf(self)"},
+      raises={"ValueError": "order is not None and size is not None"},
+      ensures={"len": "len(result) == card({k for k in E(self) if sel(self, k, order, size, up_to)})",
+               "members": "all(implies(count(result, x) >= 1, any(sel(self, k, order, size, up_to) and W(self, k) == x for k in E(self))) for x in Real)",
+               "covers": "all(implies(sel(self, k, order, size, up_to), count(result, W(self, k)) >= 1) for k in E(self))"}),
+    Contract(f"{CLS}.get_weights@dict", FILE, [CLS, "get_weights"], self_cls=CLS, properties=["C03"],
+      params={"order": "Opt[Int]", "size": "Opt[Int]", "up_to": "Bool", "asdict": "Bool"}, fixed={"asdict": True},
+      result="Map[Key,Real]", pure=True,
+      requires={"wf": "wf(self)"},
+      raises={"ValueError": "order is not None and size is not None"},
+      ensures={"dom": "all((k in result) == (k in E(self) and sel(self, k, order, size, up_to)) for k in Key)",
+               "val": "all(implies(sel(self, k, order, size, up_to), result[k] == W(self, k)) for k in E(self))"}),
+    # neighbours over all times: every other node sharing a (filtered) record with the node
+    C("get_neighbors", params={"node": "Node", "order": "Opt[Int]", "size": "Opt[Int]"}, result="Set[Int]", pure=True,
+      locals={"neigh": "Set[Int]"},
+      requires={"wf": "wf(self)"},
+      raises={"ValueError": "node not in V(self) or (order is not None and size is not None)"},
+      ensures={"result": "all((m in result) == (m != node and any(k in E(self) and node in snd(k) and m in snd(k) and sel(self, k, order, size, False) for k in Key)) for m in Node)"},
+      invariants={0: {"neigh": "all((m in neigh) == any(count(_done0, k) >= 1 and m in snd(k) for k in Key) for m in Node)"},
+                  1: {"neigh": "all((m in neigh) == any(count(_done1, k) >= 1 and m in snd(k) for k in Key) for m in Node)"}},
+      properties=["C03", "C08"]),
+    C("copy", params={}, result="Obj[TemporalHypergraph]", pure=True, requires={"wf": "wf(self)"},
+      ensures={"wf": "wf(result)", "V": "V(result) == V(self)", "E": "E(result) == E(self)",
+               "W": "all(W(result, k) == W(self, k) for k in E(self))", "M": "all(M(result, k) == M(self, k) for k in E(self))",
+               "NM": "all(NM(result, n) == NM(self, n) for n in V(self))", "weighted": "weighted(result) == weighted(self)",
+               "HM": "HM(result) == HM(self)"},
+      properties=["C03", "C05"]),
+    C("set_attr_to_node_metadata", params={"node": "Node", "field": "Field", "value": "Val"}, requires={"wf": "wf(self)"},
+      raises={"ValueError": "node not in V(self)"}, modifies=["_node_metadata"],
+      ensures={"wf": "wf(self)", "NM": "NM(self, node) == mset(NM(old(self), node), field, value)",
+               "NM_others": "all(NM(self, n) == NM(old(self), n) for n in V(self) if n != node)"}),
+    C("remove_attr_from_node_metadata", params={"node": "Node", "field": "Field"}, requires={"wf": "wf(self)"},
+      raises={"ValueError": "node not in V(self)"},
+      may_raise={"KeyError": "node in V(self) and not mhas(NM(self, node), field)"}, modifies=["_node_metadata"],
+      ensures={"wf": "wf(self)", "NM": "NM(self, node) == mdel(NM(old(self), node), field)",
+               "NM_others": "all(NM(self, n) == NM(old(self), n) for n in V(self) if n != node)"}),
+    C("degree", params={"node": "Node", "order": "Opt[Int]", "size": "Opt[Int]"}, result="Int", pure=True,
+      requires={"wf": "wf(self)"},
+      raises={"ValueError": "(order is not None and size is not None) or node not in V(self)"},
+      ensures={"result": "result == card({k for k in E(self) if node in snd(k) and sel(self, k, order, size, False)})"},
+      properties=["C03", "C08"]),
+    # batched insertion = fold of add_edge over the parallel lists (hyperedge, time, weight, metadata)
+    C("add_edges", params={"edge_list": "Seq[Tup]", "time_list": "Seq[Int]", "weights": "Opt[Seq[Real]]", "metadata": "Opt[Seq[Meta]]"},
+      requires={"wf": "wf(self)",
+                "edges_ok": "all(distinct(edge_list[m]) and len(edge_list[m]) >= 1 and time_list[m] >= 0 for m in Int if 0 <= m and m < len(edge_list))",
+                "weights_ok": "implies(weights is not None, weighted(self))",
+                "metadata_len": "implies(metadata is not None, len(metadata) >= len(edge_list))"},
+      raises={"ValueError": "len(edge_list) != len(time_list) or (weights is not None and len(weights) != len(edge_list))"},
+      may_raise={"ValueError": "weights is not None"},
+      on_raise={"wf": "wf(self)", "V": "V(self) == V(old(self))", "E": "E(self) == E(old(self))",
+                "W": "all(W(self, k) == W(old(self), k) for k in E(self))"},
+      modifies=["_adj", "_node_metadata", "_edge_list", "_reverse_edge_list", "_weights", "_edge_metadata", "_next_edge_id"],
+      ensures={"wf": "wf(self)",
+               "V": "all((n in V(self)) == (n in V(old(self)) or any(0 <= m and m < len(edge_list) and n in edge_list[m] for m in Int)) for n in Node)",
+               "E": "all((k in E(self)) == (k in E(old(self)) or any(0 <= m and m < len(edge_list) and pair(time_list[m], canon(edge_list[m])) == k for m in Int)) for k in Key)",
+               "W": "implies(weighted(self), all(W(self, k) == (W(old(self), k) if k in E(old(self)) else 0) + bsum(self, edge_list, time_list, weights, len(edge_list), k) for k in E(self)))",
+               **NODE_MD_KEPT, **SAME_WEIGHTED},
+      invariants={0: {
+          "i": "i == _j0", "j": "0 <= _j0 and _j0 <= len(edge_list)", "wf": "wf(self)",
+          "V": "all((n in V(self)) == (n in V(old(self)) or any(0 <= m and m < _j0 and n in edge_list[m] for m in Int)) for n in Node)",
+          "E": "all((k in E(self)) == (k in E(old(self)) or any(0 <= m and m < _j0 and pair(time_list[m], canon(edge_list[m])) == k for m in Int)) for k in Key)",
+          "W": "implies(weighted(self), all(W(self, k) == (W(old(self), k) if k in E(old(self)) else 0) + bsum(self, edge_list, time_list, weights, _j0, k) for k in E(self)))",
+          "W0": "all(bsum(self, edge_list, time_list, weights, _j0, k) == 0 for k in Key if k not in E(self))",
+          "NM_kept": "all(NM(self, n) == NM(old(self), n) for n in V(old(self)))",
+          "weighted": "weighted(self) == weighted(old(self))", "HM": "HM(self) == HM(old(self))"}}),
+    # earliest / latest time over all records; math.inf / -math.inf when there is none (modelled as an extended integer)
+    C("min_time", params={}, result="XInt", pure=True, locals={"min": "XInt"},
+      requires={"wf": "wf(self)"},
+      ensures={"empty": "is_pinf(result) == all(k not in E(self) for k in Key)",
+               "bound": "all(result <= fst(k) for k in E(self))",
+               "attained": "implies(not is_pinf(result), any(result == fst(k) for k in E(self)))"},
+      invariants={0: {"empty": "is_pinf(min) == all(k not in _done0 for k in Key)",
+                      "bound": "all(min <= fst(k) for k in _done0)",
+                      "attained": "implies(not is_pinf(min), any(min == fst(k) for k in _done0))"}}),
+    C("max_time", params={}, result="XInt", pure=True, locals={"max": "XInt"},
+      requires={"wf": "wf(self)"},
+      ensures={"empty": "is_ninf(result) == all(k not in E(self) for k in Key)",
+               "bound": "all(result >= fst(k) for k in E(self))",
+               "attained": "implies(not is_ninf(result), any(result == fst(k) for k in E(self)))"},
+      invariants={0: {"empty": "is_ninf(max) == all(k not in _done0 for k in Key)",
+                      "bound": "all(max >= fst(k) for k in _done0)",
+                      "attained": "implies(not is_ninf(max), any(max == fst(k) for k in _done0))"}}),
     Contract("degree[TemporalHypergraph]", "hypergraphx/measures/degree.py", ["degree"], properties=["C03", "C08"],
       params={"hg": "Obj[TemporalHypergraph]", "node": "Node", "order": "Opt[Int]", "size": "Opt[Int]"}, result="Int", pure=True,
       requires={"wf": "wf(hg)"},
